@@ -96,9 +96,12 @@ def main():
             for idx, kind, desc in mutants_of(target):
                 jobs.append((q, idx, kind, desc))
     print(len(jobs), "unique mutants in", len(seen), "functions", flush=True)
-    with mp.get_context("fork").Pool(16) as pool:
-        stat = pool.map(static_job, jobs, chunksize=4)
-    json.dump(stat, open(f"{OUT}/static.json", "w"))
+    if os.path.exists(f"{OUT}/static.json") and "--reuse-static" in sys.argv:
+        stat = [tuple(x) for x in json.load(open(f"{OUT}/static.json"))]
+    else:
+        with mp.get_context("fork").Pool(16) as pool:
+            stat = pool.map(static_job, jobs, chunksize=4)
+        json.dump(stat, open(f"{OUT}/static.json", "w"))
     print("static pass done:", sum(1 for s in stat if s[4]), "killed by some check,", sum(1 for s in stat if not s[4]), "survive all checks", flush=True)
     done = set()
     if os.path.exists(f"{OUT}/results.jsonl"):
@@ -106,6 +109,7 @@ def main():
             r = json.loads(l)
             done.add((r["function"], r["idx"], r["kind"]))
     todo = [(i,) + tuple(s) for i, s in enumerate(stat) if (s[0], s[1], s[2]) not in done and not (s[4] and s[4][0].startswith("<mutant"))]
+    todo.sort(key=lambda t: (bool(t[5]), t[0]))     # mutants that survive every static check first
     print("suite runs to do:", len(todo), flush=True)
     with mp.get_context("fork").Pool(workers) as pool:
         for k, rec in enumerate(pool.imap_unordered(suite_job, todo)):
